@@ -416,7 +416,8 @@ impl Prop for C07 {
         let pres = prefixes();
         let shapes = payload_shapes();
         for (pi, pre) in pres.iter().enumerate() {
-            let take = tier == Tier::Thorough || pre.is_empty() || pre.len() == 3 || pi % 3 == 1;
+            let take = true;
+            let _ = (tier, pi);
             if !take {
                 continue;
             }
@@ -534,9 +535,9 @@ impl Prop for C07 {
         }
     }
 
-    fn floors(&self, tier: Tier) -> Vec<(&'static str, u64)> {
+    fn floors(&self, _tier: Tier) -> Vec<(&'static str, u64)> {
         vec![
-            ("rep_cases", tier.pick(4000, 13_000)),
+            ("rep_cases", 13_000),
             ("req_cases", 340),
             ("payload_with_interior_empty_frame", 100),
             ("multi_hop_prefix", 100),
